@@ -166,9 +166,31 @@ INV_TAGS = {
 # --------------------------------------------------------------------------
 # reading the (post-)state of the interpreted object
 # --------------------------------------------------------------------------
-def read_state(obj):
+PUBLIC = ('dealer', 'vul', 'active_player', 'bid_history', 'players_bid_history', 'available_bid')
+
+
+def public(eng, obj, name):
+    """the value of a public accessor of the interpreted object (the real property is executed)"""
+    from bridge_env import BiddingPhase
+    return symx.Frame(eng, BiddingPhase.take_bid, {}).getattr(obj, name)
+
+
+def touch_public(eng, obj):
+    """query - step - query: the accessors are also read BEFORE the step, so that an accessor which caches or consumes
+    what it returns is noticed by the read after the step"""
+    for name in PUBLIC:
+        public(eng, obj, name)
+
+
+def read_state(obj, eng=None):
+    """with eng: dealer, vulnerability, turn, histories and the availability vector are read through the public
+    accessors (what a user observes); the fields without an accessor are read directly"""
     from bridge_env import Pair, Player, Suit
     A = obj.attrs
+    if eng is not None:
+        A = dict(A)
+        for name in PUBLIC:
+            A[PFX + name] = public(eng, obj, name)
     st = dict(d=zenum(A[PFX + 'dealer']), v=zenum(A[PFX + 'vul']), a=zenum(A[PFX + 'active_player']),
               lb=zenum(A[PFX + 'last_bidder']), lbid=zenum(A[PFX + 'last_bid']),
               x=zbool(A[PFX + 'called_x']), xx=zbool(A[PFX + 'called_xx']))
@@ -298,6 +320,7 @@ def case_step(props):
         S = dict(a=pre['a'], lb=pre['lb'], lbid=pre['lbid'], x=pre['x'], xx=pre['xx'], tp=tp, n=pre['n'], dc=pre['dc'])
         is_legal, is_end = legal(S, call), ends(S, call)
         refine = lambda eng, neg, m: synthesize(eng, neg, pre, tp, call)
+        touch_public(eng, obj)
         try:
             r = eng.call_function(BiddingPhase.take_bid, [obj, SEnum(Bid, call)], {})
         except symx.RaiseEx as e:
@@ -310,7 +333,7 @@ def case_step(props):
                                 for p in sorted(props)])
         if isinstance(r, SEnum):
             r = eng.concretize_enum(r)
-        post = read_state(obj)
+        post = read_state(obj, eng)
         chk = []
 
         def add(tags, label, cond):
@@ -390,10 +413,11 @@ def case_after_end(props):
             return {'kind': 'after_end', 'props': sorted(props), 'dealer': hx.mval(m, st['d']), 'vul': hx.mval(m, st['v']),
                     'lbid': hx.mval(m, st['lbid']), 'x': hx.mval(m, st['x']), 'xx': hx.mval(m, st['xx']),
                     'call': hx.mval(m, call)}
+        touch_public(eng, obj)
         try:
             eng.call_function(BiddingPhase.take_bid, [obj, SEnum(Bid, call)], {})
         except symx.RaiseEx as e:
-            post = read_state(obj)
+            post = read_state(obj, eng)
             chk = [('C02: after the end: ' + l, c) for l, c in unchanged(pre, post).items()]
             chk.append(('C02: the refusal is an Exception', isinstance(e.exc, Exception)))
             return dict(outcome='refused after the end', checks=chk, refine=refine)
@@ -416,7 +440,7 @@ def case_init(props):
             obj = eng.construct(BiddingPhase, [SEnum(Player, d), SEnum(Vul, v)], {})
         except symx.RaiseEx:
             return dict(outcome='raise', cex=cex, checks=[(f'{p}: constructor does not raise', False) for p in sorted(props)])
-        st = read_state(obj)
+        st = read_state(obj, eng)
         chk = []
         for label, cond in inv(st, z3.IntVal(0)).items():
             for p in sorted(INV_TAGS[label] & props):
@@ -494,7 +518,7 @@ def case_bmc(props, dealer, K, first=None, only=None):
         hist = []
         for i in range(K):
             O = oracle(hist, dealer)
-            pre = snapshot(read_state(obj))
+            pre = snapshot(read_state(obj, eng))
             try:
                 r = eng.call_function(BiddingPhase.take_bid, [obj, SEnum(Bid, cs[i])], {})
             except symx.RaiseEx:
@@ -503,7 +527,7 @@ def case_bmc(props, dealer, K, first=None, only=None):
                 break
             if isinstance(r, SEnum):
                 r = eng.concretize_enum(r)
-            post = read_state(obj)
+            post = read_state(obj, eng)
             if r is BiddingPhaseState.ILLEGAL:
                 add({'C01'}, f'call {i}: a rejected call is illegal on the true history', z3.Not(O['legal_next'](cs[i])))
                 for label, cond in unchanged(pre, post).items():
@@ -534,12 +558,12 @@ def case_bmc(props, dealer, K, first=None, only=None):
                                             status(cf['x'], cf['xx']) == z3.If(O2['redoubled'], 2, z3.If(O2['doubled'], 1, 0))))))
                 # any further call is refused and changes nothing
                 if i + 1 < K:
-                    pre2 = snapshot(read_state(obj))
+                    pre2 = snapshot(read_state(obj, eng))
                     try:
                         eng.call_function(BiddingPhase.take_bid, [obj, SEnum(Bid, cs[i + 1])], {})
                         add({'C02'}, f'call {i + 1} after the end is refused with an error', False)
                     except symx.RaiseEx:
-                        for label, cond in unchanged(pre2, read_state(obj)).items():
+                        for label, cond in unchanged(pre2, read_state(obj, eng)).items():
                             add({'C02'}, f'call {i + 1} after the end: ' + label, cond)
                 outcome = f'FINISHED at call {i}'
                 break
